@@ -1,13 +1,14 @@
 #!/bin/bash
 # usage: mkmutant.sh <name> <property> <expect: violation|pass> <file relative to repo> <python-replace-old> <python-replace-new>
-# creates selftest/mutants/<name>/{patch.diff,meta.json} from a single textual replacement in /repo's current tree
+# creates selftest/mutants/<name>/{patch.diff,meta.json} from a single textual replacement in /repo's current tree (agents: V=$W/verif REPO=$W/repo)
 set -e
+V=${V:-/verif}; REPO=${REPO:-/repo}
 name=$1; prop=$2; expect=$3; file=$4; old=$5; new=$6
-d=/verif/selftest/mutants/$name
+d=$V/selftest/mutants/$name
 mkdir -p $d
 tmp=$(mktemp -d)
 mkdir -p $tmp/a/$(dirname $file) $tmp/b/$(dirname $file)
-cp /repo/$file $tmp/a/$file
+cp $REPO/$file $tmp/a/$file
 OLD="$old" NEW="$new" python3 - $tmp/a/$file $tmp/b/$file <<'PY'
 import sys,os
 s=open(sys.argv[1]).read()
